@@ -1,18 +1,227 @@
 """C26 Forward and inverse dynamics are consistent."""
 from __future__ import annotations
+import re
 import numpy as np
 from .common import Acc, intercept, result, search_result
 
 ID = "C26"
 LEAN_MODULES = ["MjwVerif.Props.C26"]
-GEN_FUNCS = ["inverse._qfrc_inverse", "inverse._qfrc_eulerdamp", "forward._qfrc_smooth__kernel", "forward._euler_damp_qfrc"]
-KERNELS = ["inverse._qfrc_inverse", "inverse._qfrc_eulerdamp", "forward._qfrc_smooth__kernel"]
+GEN_FUNCS = ["inverse._qfrc_inverse", "inverse._qfrc_eulerdamp", "forward._qfrc_smooth__kernel", "forward._euler_damp_qfrc", "forward._compute_damping_deriv"]
+KERNELS = ["inverse._qfrc_inverse", "inverse._qfrc_eulerdamp", "forward._qfrc_smooth__kernel", "forward._compute_damping_deriv"]
 LEVEL_TEXT = ("Theorems: exact write lists of _qfrc_inverse (bias + M a - passive - constraint), _qfrc_smooth (passive - bias + actuator + applied, sleep mask), _update_gradient_grad, "
-              "_qfrc_eulerdamp, regenerated from inverse.py/forward.py/solver.py on every run; per dof and in matrix form over the reals: qfrc_inverse - (applied + xfrc + actuator) equals the "
+              "_qfrc_eulerdamp and _compute_damping_deriv (the SAME coefficient _poly_force_deriv(damping, dampingpoly, qvel, 1) in the step and in discrete_acc), regenerated from "
+              "inverse.py/forward.py/solver.py on every run; per dof and in matrix form over the reals: qfrc_inverse - (applied + xfrc + actuator) equals the "
               "forward solver's gradient M a - qfrc_smooth - J^T f EXACTLY — so they agree iff the solver residual is zero and within its norm otherwise; the discrete-time maps "
-              "a_c = M^-1 (M + hB) a_d and a_d = (M + hB)^-1 M a_c (Euler) / with M - h qDeriv (implicit-fast) are mutually inverse. forward()+inverse() on the real code are compared (sampled).")
-LEVEL_NOTE = ("Deviations documented in C26Witness: INVDISCRETE with DAMPER disabled (inherited from MuJoCo C), dofs of sleeping trees. Trusted: Lean kernel + Mathlib, tier-B translator.")
-ASSUMPTIONS = ["tolerance = 50x the solver tolerance scaled by force magnitude (the property allows 'within the forward solver's residual')"]
+              "a_c = M^-1 (M + hB) a_d and a_d = (M + hB)^-1 M a_c (Euler) / with M - h qDeriv (implicit-fast) are mutually inverse. On the real code (sampled, deterministic rotation of "
+              "integrator x INVDISCRETE x EULERDAMP/DAMPER flags x linear/polynomial joint and tendon damping x velocity sign): forward()[+step()]+inverse() round trip, and inverse() "
+              "at an arbitrary acceleration against mujoco.mj_inverse for continuous- AND discrete-time inverse dynamics.")
+LEVEL_NOTE = ("Deviations documented in C26Witness: INVDISCRETE with DAMPER disabled (inherited from MuJoCo C; the oracle checks there that the real code equals mujoco.mj_inverse and does "
+              "not claim the round trip), dofs of sleeping trees. discrete_acc raises NotImplementedError for implicit/RK4 (counted, not claimed). Trusted: Lean kernel + Mathlib, tier-B translator.")
+ASSUMPTIONS = ["round-trip tolerance: constrained states 5e-3 x force magnitude (the property allows 'within the forward solver's residual'); unconstrained states 5e-4 x magnitude of the "
+               "terms of the inverse-dynamics sum (float32), plus the float32 rounding of the differenced velocity (qvel' - qvel)/h propagated through |M|",
+               "same-input comparison with mujoco.mj_inverse only for states without constraint rows (contact sets are C04's business)"]
+
+EPS32 = float(np.finfo(np.float32).eps)
+
+# Deterministic rotation (case c uses row c % 10; c // 10 = round varies the secondary choices).  Columns:
+#   integrator, INVDISCRETE, disabled flag, damping kind, velocity-sign policy, floor (None = random)
+# damping kinds: "linear" (one coefficient), "poly" (joint damping b0 b1 b2), "poly+tendon" (additionally a fixed tendon with
+# polynomial damping / stiffness over the scalar joints: off-diagonal terms of qDeriv for implicit-fast)
+_ROT = [
+  ("Euler",        True,  "",          "poly",        "neg",   False),
+  ("implicitfast", True,  "",          "poly+tendon", "neg",   False),
+  ("Euler",        False, "",          "poly",        "rand",  None),
+  ("Euler",        True,  "eulerdamp", "poly",        "mixed", None),
+  ("implicitfast", False, "",          "linear",      "rand",  None),
+  ("Euler",        True,  "",          "poly+tendon", "mixed", None),
+  ("implicitfast", True,  "damper",    "poly+tendon", "neg",   None),
+  ("Euler",        True,  "damper",    "poly",        "neg",   False),
+  (None,           None,  "",          "linear",      "rand",  None),   # the earlier purely random draw
+  ("other",        None,  "",          "poly",        "rand",  None),   # implicit / RK4 (discrete_acc: NotImplementedError)
+]
+
+
+def _damping_attr(rng, kind, scale=1.0):
+  """damping attribute; coefficients are relative to `scale` (the joint-space inertia of the damped dofs) so that the implicit
+  term h B is a visible fraction (up to ~0.5) of M whatever the masses are"""
+  b0 = rng.uniform(0.5, 5.0) * scale
+  if kind == "linear":
+    return f'damping="{b0:.4g}"'
+  # quadratic coefficient always non-zero (it is the term that distinguishes |v| from v), cubic one in half of the cases
+  b1 = rng.uniform(3.0, 10.0) * scale
+  b2 = rng.uniform(0.5, 2.0) * scale if rng.random() < 0.5 else 0.0
+  return f'damping="{b0:.4g} {b1:.4g} {b2:.4g}"'
+
+
+def _set_state(ref, mjd, qacc=None):
+  ref.qpos[:], ref.qvel[:], ref.ctrl[:], ref.qfrc_applied[:] = mjd.qpos, mjd.qvel, mjd.ctrl, mjd.qfrc_applied
+  ref.xfrc_applied[:] = mjd.xfrc_applied
+  if qacc is not None:
+    ref.qacc[:] = qacc
+
+
+def _discrete_matrices(mujoco, mjm, mjd, integ, dis):
+  """NumPy float64 transcription of what discrete_acc has to compute: the inverse of the integrator's velocity update.
+  Returns (M, A) with A a_d = M a_c:
+
+  Euler:         (M + h B) a_d = M a_c,  B_i = b0_i + 2 b1_i |v_i| + 3 b2_i v_i^2  (dof damping, odd force law b(|v|) v)
+  implicit-fast: (M - h qDeriv) a_d = M a_c,  qDeriv = d(actuator + damper forces)/dv restricted to the sparsity pattern of M:
+                 sum_act moment^T (gainprm[2] ctrl + biasprm[2]) moment  -  diag(B)  -  sum_tendon J^T B_t J
+  (no damping terms when DAMPER is disabled; Euler with EULERDAMP or DAMPER disabled: a_c = a_d).  mjd holds mj_forward results."""
+  nv, h = mjm.nv, mjm.opt.timestep
+  M = np.zeros((nv, nv))
+  mujoco.mj_fullM(mjm, mjd, M)
+  v = mjd.qvel
+  B = mjm.dof_damping + 2 * mjm.dof_dampingpoly[:, 0] * np.abs(v) + 3 * mjm.dof_dampingpoly[:, 1] * v * v
+  if integ == "Euler":
+    # euler() integrates damping implicitly iff neither EULERDAMP nor DAMPER is disabled
+    return M, (M.copy() if dis in ("eulerdamp", "damper") else M + h * np.diag(B))
+  assert integ == "implicitfast"
+  Q = np.zeros((nv, nv))
+  for a in range(mjm.nu):
+    assert mjm.actuator_trntype[a] == mujoco.mjtTrn.mjTRN_JOINT and mjm.actuator_dyntype[a] == mujoco.mjtDyn.mjDYN_NONE
+    mom = np.zeros(nv)
+    mom[mjm.jnt_dofadr[mjm.actuator_trnid[a, 0]]] = mjm.actuator_gear[a, 0]
+    coef = 0.0
+    if mjm.actuator_gaintype[a] == mujoco.mjtGain.mjGAIN_AFFINE:
+      coef += mjm.actuator_gainprm[a, 2] * mjd.ctrl[a]
+    if mjm.actuator_biastype[a] == mujoco.mjtBias.mjBIAS_AFFINE:
+      coef += mjm.actuator_biasprm[a, 2]
+    Q += coef * np.outer(mom, mom)
+  if dis != "damper":
+    Q -= np.diag(B)
+    for t in range(mjm.ntendon):
+      J = np.zeros(nv)
+      for w in range(mjm.tendon_adr[t], mjm.tendon_adr[t] + mjm.tendon_num[t]):
+        assert mjm.wrap_type[w] == mujoco.mjtWrap.mjWRAP_JOINT
+        J[mjm.jnt_dofadr[mjm.wrap_objid[w]]] += mjm.wrap_prm[w]
+      vt = float(J @ v)
+      Q -= (mjm.tendon_damping[t] + 2 * mjm.tendon_dampingpoly[t, 0] * abs(vt) + 3 * mjm.tendon_dampingpoly[t, 1] * vt * vt) * np.outer(J, J)
+  # qDeriv lives on the sparsity pattern of M (dof i, dof j with one an ancestor of the other); other entries are dropped
+  pat = np.eye(nv, dtype=bool)
+  for i in range(nv):
+    j = mjm.dof_parentid[i]
+    while j >= 0:
+      pat[i, j] = pat[j, i] = True
+      j = mjm.dof_parentid[j]
+  return M, M - h * np.where(pat, Q, 0.0)
+
+
+def _evaluate(mujoco, mjw, acc, margin, mjm, mjd, m, caps, integ, disc, dis, label, replay, qacc_r, case_key):
+  """the two checks on one (model, state): round trip forward()[+step()] -> inverse(), and inverse() at the acceleration qacc_r
+  against the references.  mjd holds the state and mj_forward results; returns the mujoco_warp Data."""
+  d = mjw.put_data(mjm, mjd, nworld=1, **caps)
+  mjw.forward(m, d)
+  # the documented deviation (C26Witness.discrete_guard_mismatch_model): euler() integrates damping implicitly iff neither
+  # EULERDAMP nor DAMPER is disabled, discrete_acc (like MuJoCo C) tests EULERDAMP only -> no round-trip claim there
+  guard_mismatch = disc and integ == "Euler" and dis == "damper" and bool((mjm.dof_damping != 0).any() or (mjm.dof_dampingpoly != 0).any())
+  supported = True
+  diff_tol = np.zeros(mjm.nv)
+  Mfull = Adisc = None
+  h = float(mjm.opt.timestep)
+  if disc:
+    # the acceleration the discrete step actually uses: take a step on a copy and difference the velocity
+    d2 = mjw.put_data(mjm, mjd, nworld=1, **caps)
+    mjw.step(m, d2)
+    qvel1 = d2.qvel.numpy()[0].astype(np.float64)
+    qacc_d = (qvel1 - mjd.qvel) / h
+    d.qacc.assign(qacc_d[None].astype(np.float32))
+    # float32 rounding of qvel' (and of qvel on upload) enters qacc_d divided by h, and the forces through |A|, A a_d = M a_c
+    if integ in ("Euler", "implicitfast"):
+      Mfull, Adisc = _discrete_matrices(mujoco, mjm, mjd, integ, dis)
+      diff_tol = 4.0 * (np.abs(Adisc) @ (EPS32 * (np.abs(qvel1) + np.abs(mjd.qvel)) / h))
+  try:
+    mjw.inverse(m, d)
+  except NotImplementedError:
+    # discrete_acc supports Euler and implicit-fast only; an explicit refusal is outside the property's domain
+    supported = False
+    acc.hit(f"disc-unsupported-integrator:{integ}:NotImplementedError")
+    if integ in ("Euler", "implicitfast"):
+      acc.find(f"inverse() with INVDISCRETE raised NotImplementedError for the {integ} integrator", "inverse.discrete_acc", "fwdinv-discrete-raises", **replay)
+  if supported and guard_mismatch:
+    acc.hit("roundtrip-not-claimed:damper-disabled-euler-invdiscrete(documented)")
+  elif supported:
+    acc.evals += 1
+    inv = d.qfrc_inverse.numpy()[0].astype(np.float64)
+    # applied generalized force = qfrc_applied + J^T xfrc + actuator, computed by MuJoCo for the same inputs
+    ref = mujoco.MjData(mjm)
+    _set_state(ref, mjd)
+    mujoco.mj_forward(mjm, ref)
+    applied = ref.qfrc_applied.copy() + ref.qfrc_actuator
+    for b in range(1, mjm.nbody):
+      jp, jr = np.zeros((3, mjm.nv)), np.zeros((3, mjm.nv))
+      mujoco.mj_jac(mjm, ref, jp, jr, ref.xipos[b], b)
+      applied += jp.T @ ref.xfrc_applied[b, :3] + jr.T @ ref.xfrc_applied[b, 3:]
+    nefc = int(d.nefc.numpy()[0]) if caps["njmax"] else 0
+    fcon = np.abs(d.qfrc_constraint.numpy()[0]).max()
+    bias, passive = np.abs(d.qfrc_bias.numpy()[0]).astype(np.float64), np.abs(d.qfrc_passive.numpy()[0]).astype(np.float64)
+    glob = 1 + np.abs(applied).max() + bias.max() + passive.max() + np.abs(inv).max()
+    if nefc > 0:
+      tol = 5e-3 * (glob + fcon) + diff_tol
+    else:
+      # float32: 5e-4 x the terms of dof i's own sum + 2e-5 x the largest force in the system (RNE accumulates over the subtree)
+      tol = 5e-4 * (np.abs(applied) + bias + passive + np.abs(inv)) + 2e-5 * glob + diff_tol
+    acc.distinct.add(case_key)
+    k = int(np.argmax(np.abs(inv - applied) / tol))
+    err, tol = float(np.abs(inv - applied)[k]), float((tol + np.zeros(mjm.nv))[k])
+    margin("roundtrip" + ("-disc" if disc else "") + ("-constrained" if nefc else ""), err, tol)
+    if not err <= tol:
+      acc.find(f"inverse() after forward() returns forces differing from applied+xfrc+actuator by {err:.3g} at dof {k} (tol {tol:.2g}; {label})",
+               "inverse.inverse", "fwdinv-discrete" if disc else "fwdinv", **replay)
+    acc.hit("roundtrip" + ("-disc" if disc else "") + ("-constrained" if nefc else "-unconstrained"))
+  if supported:
+    # inverse dynamics is a function of (qpos, qvel, qacc) for ANY acceleration, not only the one forward() produced.
+    # Reference: mujoco.mj_inverse WITHOUT INVDISCRETE at the continuous-time acceleration; with INVDISCRETE the given qacc is
+    # the discrete-time one and the continuous-time one is a_c = M^-1 (M + h B) a_d (Euler) / M^-1 (M - h qDeriv) a_d
+    # (implicit-fast) with B, qDeriv transcribed in NumPy float64 from the model (_discrete_matrices).
+    qacc_c = np.linalg.solve(Mfull, Adisc @ qacc_r) if disc else qacc_r  # (disc and supported => Euler or implicit-fast)
+    ref2 = mujoco.MjData(mjm)
+    _set_state(ref2, mjd, qacc_c)
+    mjm.opt.enableflags &= ~int(mujoco.mjtEnableBit.mjENBL_INVDISCRETE)
+    try:
+      mujoco.mj_inverse(mjm, ref2)
+    finally:
+      if disc:
+        mjm.opt.enableflags |= int(mujoco.mjtEnableBit.mjENBL_INVDISCRETE)
+    if int(ref2.nefc) == 0:
+      d.qacc.assign(qacc_r[None].astype(np.float32))
+      mjw.inverse(m, d)
+      acc.evals += 1
+      inv2 = d.qfrc_inverse.numpy()[0].astype(np.float64)
+      Ma = np.zeros(mjm.nv)
+      mujoco.mj_mulM(mjm, ref2, Ma, qacc_c)
+      loc = np.abs(ref2.qfrc_inverse) + np.abs(ref2.qfrc_bias) + np.abs(ref2.qfrc_passive) + np.abs(Ma)
+      tol2v = 5e-4 * loc + 2e-5 * (1 + loc.max())
+      kind = "arbitrary-qacc" + ("-disc" if disc else "")
+      if not (disc and guard_mismatch):
+        k = int(np.argmax(np.abs(inv2 - ref2.qfrc_inverse) / tol2v))
+        err2, tol2 = float(np.abs(inv2 - ref2.qfrc_inverse)[k]), float(tol2v[k])
+        margin(kind, err2, tol2)
+        if not err2 <= tol2:
+          acc.find(f"inverse() for an arbitrary qacc differs from mujoco.mj_inverse"
+                   f"{' at the continuous-time acceleration M^-1 (M + h B) a_d resp. M^-1 (M - h qDeriv) a_d' if disc else ''} by {err2:.3g} (tol {tol2:.2g}; {label}, njmax={caps['njmax']})",
+                   "inverse.inverse", "inverse-arbitrary-qacc-discrete" if disc else "inverse-arbitrary-qacc", qacc=qacc_r.tolist(), **replay)
+        acc.hit(kind)
+      if disc:
+        # MuJoCo C's own discrete-time inverse (mj_discreteAcc) on the same input.  Decides for Euler (including the inherited
+        # EULERDAMP-only guard when DAMPER is disabled); for implicit-fast MuJoCo 3.13 integrates free/ball bodies with a term
+        # that mujoco_warp's implicit-fast does not have (C08's subject), so there it is only counted.
+        ref3 = mujoco.MjData(mjm)
+        _set_state(ref3, mjd, qacc_r)
+        mujoco.mj_inverse(mjm, ref3)
+        k = int(np.argmax(np.abs(inv2 - ref3.qfrc_inverse) / tol2v))
+        err3, tol2 = float(np.abs(inv2 - ref3.qfrc_inverse)[k]), float(tol2v[k])
+        if integ == "Euler":
+          margin(kind + "-vs-mjC", err3, tol2)
+          if not err3 <= tol2:
+            acc.find(f"inverse() with INVDISCRETE for an arbitrary qacc differs from mujoco.mj_inverse (mj_discreteAcc) by {err3:.3g} (tol {tol2:.2g}; {label}, njmax={caps['njmax']})",
+                     "inverse.discrete_acc", "inverse-arbitrary-qacc-discrete-vs-mjC", qacc=qacc_r.tolist(), **replay)
+          acc.hit(kind + "-vs-mjC")
+        else:
+          acc.hit(f"{kind}-vs-mjC({integ}):" + ("agrees" if err3 <= tol2 else "differs(not claimed)"))
+    else:
+      acc.hit("arbitrary-qacc-constrained-skipped")
+  return d
 
 
 def _run(ctx, ncases, rec):
@@ -21,27 +230,81 @@ def _run(ctx, ncases, rec):
   from harness.gen import models
   rng = np.random.default_rng(ctx.seed * 1000 + 26)
   acc = Acc()
+  margins = {}
+
+  def margin(kind, err, tol):
+    margins[kind] = max(margins.get(kind, 0.0), float(err / tol))
 
   def scenario():
     for c in range(ncases):
-      integ = str(rng.choice(["Euler", "implicitfast"]))
-      disc = rng.random() < 0.5
+      integ, disc, dis, damp, vsign, floor = _ROT[c % len(_ROT)]
+      rnd = c // len(_ROT)
+      if integ is None:
+        integ = str(rng.choice(["Euler", "implicitfast"]))
+      elif integ == "other":
+        integ = ["implicit", "RK4"][rnd % 2]
+      if disc is None:
+        disc = bool(rng.random() < 0.5)
+      if floor is None:
+        floor = bool(rng.random() < 0.6)
+      if vsign == "neg" and rnd % 3 == 2:
+        vsign = "pos"  # control: for non-negative velocities the |v| / v distinction vanishes
+      h = [0.01, 0.004, 0.02][(c + rnd) % 3]
       cone = ' cone="elliptic"' if rng.random() < 0.4 else ""
       wb, sp = models.random_tree(rng, nbody=int(rng.integers(2, 5)), geom_types=["sphere", "capsule", "box"], spread=0.35, sites=False, joint_types=("free", "hinge", "slide"))
       hj = [j for j, t in sp.joint_types.items() if t in ("hinge", "slide")]
       extra = f'<actuator><motor joint="{hj[0]}"/><position joint="{hj[0]}" kp="3" kv="0.2"/></actuator>' if hj else ""
-      flag = '<option><flag invdiscrete="enable"/></option>\n  ' if disc else ""
-      xml = models.wrap(wb, option=f'timestep="0.004" integrator="{integ}" iterations="100" tolerance="1e-12"' + cone, extra=extra, floor=rng.random() < 0.6)
-      xml = xml.replace("<option ", flag + "<option ", 1).replace('type="hinge"', 'type="hinge" damping="0.3" stiffness="1"')
+      if damp == "poly+tendon" and hj:
+        coefs = "".join(f'<joint joint="{j}" coef="{rng.uniform(0.4, 1.5) * (1 if rng.random() < 0.5 else -1):.3g}"/>' for j in hj[:3])
+        extra += f'\n<tendon><fixed name="t0" @D:{"+".join(hj[:3])}@ stiffness="{rng.uniform(0.5, 2):.3g} {rng.uniform(-0.5, 0.5):.3g} {rng.uniform(0, 0.5):.3g}">{coefs}</fixed></tendon>'
+      flags = ('invdiscrete="enable" ' if disc else "") + (f'{dis}="disable"' if dis else "")
+      flag = f'<option><flag {flags}/></option>\n  ' if flags else ""
+      xml = models.wrap(wb, option=f'timestep="{h}" integrator="{integ}" iterations="100" tolerance="1e-12"' + cone, extra=extra, floor=floor)
+      xml = xml.replace("<option ", flag + "<option ", 1)
+      # springs and dampers: every hinge/slide joint gets (linear or polynomial) damping, hinges a (polynomial) spring, every free
+      # joint damping (polynomial kinds).  @D:<joints>@ marks a damping attribute, filled in below relative to the joints' inertia.
+      stiff = (lambda: f'stiffness="1 {rng.uniform(-0.5, 0.5):.3g} {rng.uniform(0, 0.4):.3g}"') if damp != "linear" else (lambda: 'stiffness="1"')
+      xml = re.sub(r'<joint name="([^"]*)" type="(hinge|slide)"', lambda mo: f'{mo.group(0)} @D:{mo.group(1)}@ {stiff() if mo.group(2) == "hinge" else ""}', xml)
+      if damp != "linear":
+        xml = re.sub(r'<freejoint name="([^"]*)"/>', lambda mo: f'<joint name="{mo.group(1)}" type="free" @D:{mo.group(1)}@/>', xml)
+      try:
+        mjm0 = mujoco.MjModel.from_xml_string(re.sub(r"@D:[^@]*@", "", xml))
+      except ValueError:
+        acc.hit("xml-rejected-by-mujoco")
+        continue
+
+      def fill(mo):
+        # scale = smallest joint-space inertia (dof_M0) among the dofs of the named joints
+        m0 = []
+        for jn in mo.group(1).split("+"):
+          j = mujoco.mj_name2id(mjm0, mujoco.mjtObj.mjOBJ_JOINT, jn)
+          a0 = mjm0.jnt_dofadr[j]
+          m0 += list(mjm0.dof_M0[a0:a0 + {0: 6, 1: 3, 2: 1, 3: 1}[int(mjm0.jnt_type[j])]])
+        return _damping_attr(rng, "poly" if "+" in mo.group(1) else damp, float(min(m0)))
+
+      xml = re.sub(r"@D:([^@]*)@", fill, xml)
       try:
         mjm = mujoco.MjModel.from_xml_string(xml)
       except ValueError:
+        acc.hit("xml-rejected-by-mujoco")
         continue
       mjd = mujoco.MjData(mjm)
       models.random_state(rng, mjm, mjd, qpos_scale=0.2, qvel_scale=1.0, unnormalized=False)
       for j in range(mjm.njnt):
         if mjm.jnt_type[j] == 0:
           mjd.qpos[mjm.jnt_qposadr[j] + 2] = rng.uniform(0.05, 0.5)
+      # velocity-sign policy on the dofs (the damping force law is odd in v: b(|v|) v)
+      polydof = [i for i in range(mjm.nv) if mjm.dof_dampingpoly[i, 0] != 0]
+      if vsign == "neg":
+        mjd.qvel[:] = -np.abs(mjd.qvel) - 0.1
+      elif vsign == "pos":
+        mjd.qvel[:] = np.abs(mjd.qvel) + 0.1
+      elif vsign == "mixed" and polydof:
+        k = int(rng.integers(len(polydof)))
+        mjd.qvel[polydof[k]] = -abs(mjd.qvel[polydof[k]]) - 0.3
+        if len(polydof) > 1:
+          k2 = (k + 1) % len(polydof)
+          mjd.qvel[polydof[k2]] = abs(mjd.qvel[polydof[k2]]) + 0.3
       mjd.ctrl[:] = rng.normal(size=mjm.nu)
       mjd.qfrc_applied[:] = rng.normal(size=mjm.nv) * 0.5
       mjd.xfrc_applied[1:, :3] = rng.normal(size=(mjm.nbody - 1, 3)) * 0.3
@@ -57,69 +320,77 @@ def _run(ctx, ncases, rec):
       if int(mjd.nefc) == 0 and int(mjd.ncon) == 0 and rng.random() < 0.7:
         caps = dict(naconmax=0, njmax=0)
       acc.hit("njmax=0" if caps["njmax"] == 0 else "njmax>0")
-      d = mjw.put_data(mjm, mjd, nworld=1, **caps)
-      mjw.forward(m, d)
-      if disc:
-        # the acceleration the discrete step actually uses: take a step on a copy and difference the velocity
-        d2 = mjw.put_data(mjm, mjd, nworld=1, **caps)
-        mjw.step(m, d2)
-        qacc_d = (d2.qvel.numpy()[0] - mjd.qvel) / mjm.opt.timestep
-        d.qacc.assign(qacc_d[None].astype(np.float32))
-      mjw.inverse(m, d)
-      acc.evals += 1
-      inv = d.qfrc_inverse.numpy()[0].astype(np.float64)
-      # applied generalized force = qfrc_applied + J^T xfrc + actuator, computed by MuJoCo for the same inputs
-      ref = mujoco.MjData(mjm)
-      ref.qpos[:], ref.qvel[:], ref.ctrl[:], ref.qfrc_applied[:] = mjd.qpos, mjd.qvel, mjd.ctrl, mjd.qfrc_applied
-      ref.xfrc_applied[:] = mjd.xfrc_applied
-      mujoco.mj_forward(mjm, ref)
-      applied = ref.qfrc_applied.copy() + ref.qfrc_actuator
-      for b in range(1, mjm.nbody):
-        jp, jr = np.zeros((3, mjm.nv)), np.zeros((3, mjm.nv))
-        mujoco.mj_jac(mjm, ref, jp, jr, ref.xipos[b], b)
-        applied += jp.T @ ref.xfrc_applied[b, :3] + jr.T @ ref.xfrc_applied[b, 3:]
-      tol = 5e-3 * (1 + np.abs(applied).max() + np.abs(d.qfrc_constraint.numpy()[0]).max())
-      acc.distinct.add((c, integ, disc, cone))
-      if not np.allclose(inv, applied, atol=tol):
-        acc.find(f"inverse() after forward() returns forces differing from applied+xfrc+actuator by {np.abs(inv - applied).max():.3g} (tol {tol:.2g}; {integ}, invdiscrete={disc}{cone})",
-                 "inverse.inverse", "fwdinv-discrete" if disc else "fwdinv", xml=xml, qpos=mjd.qpos.tolist(), qvel=mjd.qvel.tolist(), ctrl=mjd.ctrl.tolist())
-      if not disc:
-        # inverse dynamics is a function of (qpos, qvel, qacc) for ANY acceleration, not only the one forward() produced
-        qacc_r = rng.normal(size=mjm.nv) * 3.0
-        ref2 = mujoco.MjData(mjm)
-        ref2.qpos[:], ref2.qvel[:], ref2.ctrl[:], ref2.qfrc_applied[:] = mjd.qpos, mjd.qvel, mjd.ctrl, mjd.qfrc_applied
-        ref2.xfrc_applied[:] = mjd.xfrc_applied
-        ref2.qacc[:] = qacc_r
-        mujoco.mj_inverse(mjm, ref2)
-        d.qacc.assign(qacc_r[None].astype(np.float32))
-        mjw.inverse(m, d)
-        acc.evals += 1
-        inv2 = d.qfrc_inverse.numpy()[0].astype(np.float64)
-        tol2 = 5e-3 * (1 + np.abs(ref2.qfrc_inverse).max())
-        if int(ref2.nefc) == 0 and not np.allclose(inv2, ref2.qfrc_inverse, atol=tol2):
-          acc.find(f"inverse() for an arbitrary qacc differs from mujoco.mj_inverse by {np.abs(inv2 - ref2.qfrc_inverse).max():.3g} (tol {tol2:.2g}; {integ}, njmax={caps['njmax']})",
-                   "inverse.inverse", "inverse-arbitrary-qacc", xml=xml, qpos=mjd.qpos.tolist(), qvel=mjd.qvel.tolist(), qacc=qacc_r.tolist(), njmax=caps["njmax"])
-        acc.hit("arbitrary-qacc" + ("" if int(ref2.nefc) == 0 else "-constrained-skipped"))
+      # which features are really active in this case (vacuity is visible in the hit table)
+      damper_on = dis != "damper"
+      if polydof and damper_on:
+        acc.hit("active:dof-dampingpoly")
+        if (mjd.qvel[polydof] < 0).any():
+          acc.hit("active:dof-dampingpoly,qvel<0")
+      if mjm.ntendon and damper_on and (mjm.tendon_dampingpoly[:, 0] != 0).any():
+        acc.hit("active:tendon-dampingpoly" + (",ten_velocity<0" if (mjd.ten_velocity < 0).any() else ""))
+      if (mjm.jnt_stiffnesspoly != 0).any():
+        acc.hit("active:jnt-stiffnesspoly")
+      if dis:
+        acc.hit(f"flag:{dis}-disabled")
+      acc.hit(f"timestep={h}")
+      label = f"{integ}, invdiscrete={disc}{cone}" + (f", {dis} disabled" if dis else "") + f", damping {damp}, qvel {vsign}, h={h}"
+      replay = dict(xml=xml, qpos=mjd.qpos.tolist(), qvel=mjd.qvel.tolist(), ctrl=mjd.ctrl.tolist(), qfrc_applied=mjd.qfrc_applied.tolist(),
+                    xfrc_applied=mjd.xfrc_applied.tolist(), njmax=caps["njmax"])
+      qacc_r = rng.normal(size=mjm.nv) * 3.0
+      d = _evaluate(mujoco, mjw, acc, margin, mjm, mjd, m, caps, integ, disc, dis, label, replay, qacc_r, (c, integ, disc, cone, dis, damp, vsign))
       acc.hit(f"{integ}{'-disc' if disc else ''}")
-      acc.sample({"integrator": integ, "invdiscrete": disc, "cone": cone.strip(), "nefc": int(d.nefc.numpy()[0])})
+      acc.sample({"integrator": integ, "invdiscrete": disc, "cone": cone.strip(), "disabled": dis, "damping": damp, "qvel": vsign, "timestep": h,
+                  "nefc": int(d.nefc.numpy()[0])})
 
   if rec:
     kc, _ = intercept(KERNELS, scenario, rng, max_tids=16, per_kernel=3)
   else:
     scenario()
     kc = None
-  return acc, kc
+  return acc, kc, margins
 
 
-RULE = ("random trees with actuators, springs/dampers, applied generalized and Cartesian forces, with and without floor contacts, both cones, Euler/implicitfast, INVDISCRETE on/off; forward() then "
-        "inverse() (for INVDISCRETE on the acceleration the step actually produced); qfrc_inverse vs qfrc_applied + J^T xfrc_applied + qfrc_actuator (MuJoCo's values); for unconstrained states additionally inverse() at a random qacc vs mujoco.mj_inverse; zero capacities (njmax = naconmax = 0) for unconstrained models; distinct = case tuples")
+RULE = ("random trees with actuators, applied generalized and Cartesian forces, with and without floor contacts, both cones, time steps 0.004/0.01/0.02; a 10-row deterministic rotation over "
+        "integrator (Euler, implicitfast; implicit/RK4 for continuous-time and to see discrete_acc refuse them) x INVDISCRETE x disabled flag (none, EULERDAMP, DAMPER) x damping kind (linear; polynomial "
+        "joint damping b0 b1 b2 with b1 != 0 on hinge/slide/free joints and polynomial springs; additionally a fixed tendon with polynomial damping/stiffness) x velocity-sign policy (all negative, "
+        "mixed with one polynomially damped dof forced negative and one positive, random, all positive as control) — hits 'active:*' count the cases where the feature is really active; "
+        "(1) forward() then inverse() (for INVDISCRETE on the acceleration (qvel' - qvel)/h that step() actually produced); qfrc_inverse vs qfrc_applied + J^T xfrc_applied + qfrc_actuator "
+        "(MuJoCo's values) — not claimed for Euler+INVDISCRETE with DAMPER disabled (documented deviation); (2) for states without constraint rows inverse() at a random qacc vs mujoco.mj_inverse, "
+        "continuous- and discrete-time; zero capacities (njmax = naconmax = 0) for unconstrained models; 'margins' = worst observed error / tolerance per check; distinct = case tuples")
 
 
 def correspondence(ctx):
-  acc, kc = _run(ctx, 40 if ctx.thorough else 10, True)
-  return result(acc, RULE, kc=kc)
+  acc, kc, margins = _run(ctx, 40 if ctx.thorough else 10, True)
+  return result(acc, RULE, kc=kc, extra={"margins": margins})
 
 
 def search(ctx, breaks):
-  acc, _ = _run(ctx, 100, False)
-  return search_result(acc, "applied + Cartesian-applied + actuator forces vs inverse() output")
+  acc, _, margins = _run(ctx, 100, False)
+  out = search_result(acc, "applied + Cartesian-applied + actuator forces vs inverse() output (round trip); mujoco.mj_inverse at an arbitrary acceleration, continuous- and discrete-time")
+  out["margins"] = margins
+  return out
+
+
+def replay(payload):
+  """re-runs a recorded witness (xml + state [+ qacc]) on the real code; True iff it passes now"""
+  import mujoco
+  import mujoco_warp as mjw
+  mjm = mujoco.MjModel.from_xml_string(payload["xml"])
+  mjd = mujoco.MjData(mjm)
+  mjd.qpos[:], mjd.qvel[:], mjd.ctrl[:] = payload["qpos"], payload["qvel"], payload["ctrl"]
+  if "qfrc_applied" in payload:
+    mjd.qfrc_applied[:] = payload["qfrc_applied"]
+    mjd.xfrc_applied[:] = np.array(payload["xfrc_applied"])
+  mujoco.mj_forward(mjm, mjd)
+  integ = {0: "Euler", 1: "RK4", 2: "implicit", 3: "implicitfast"}[int(mjm.opt.integrator)]
+  disc = bool(mjm.opt.enableflags & int(mujoco.mjtEnableBit.mjENBL_INVDISCRETE))
+  dis = "damper" if mjm.opt.disableflags & int(mujoco.mjtDisableBit.mjDSBL_DAMPER) else (
+    "eulerdamp" if mjm.opt.disableflags & int(mujoco.mjtDisableBit.mjDSBL_EULERDAMP) else "")
+  njmax = int(payload.get("njmax", 300))
+  caps = dict(naconmax=150 if njmax else 0, njmax=njmax)
+  acc = Acc()
+  qacc_r = np.array(payload["qacc"]) if "qacc" in payload else np.random.default_rng(0).normal(size=mjm.nv) * 3.0
+  _evaluate(mujoco, mjw, acc, lambda *a: None, mjm, mjd, mjw.put_model(mjm), caps, integ, disc, dis, "replay", {}, qacc_r, ("replay",))
+  for f in acc.findings:
+    print("replay:", f["trigger_id"], f["what"])
+  return not acc.findings
